@@ -22,8 +22,8 @@ executed (must complete, tau still compared) but their deviations are only repor
 Latitude: nothing is demanded of ill-conditioned pairs beyond completing; parameters whose contribution is below
 PAR_TOL of the largest term may differ arbitrarily; the sign of zero.
 Side regimes with their own mechanism keys (structural features of the pair, never seeds or values):
- - 'real-inv-placeholder-constants' (see C07): the harness predicts that the hard-coded 1e-18 / 1e18 placeholders of the
-   matrix-inversion real test are visible (> ARTEFACT_MAX) in either input;
+ - '<real-inv|imaginary-inv>-placeholder-constants' (see C07): the harness predicts that the hard-coded 1e-18 / 1e18
+   placeholders of the matrix-inversion real / imaginary test are visible (> ARTEFACT_MAX) in either input;
  - 'frequency-unit-dependence:<lstsq|pinv>': the pair is well-conditioned in natural units but, for at least one of
    the two inputs, the design matrix in the library's own units (rad/s, unnormalised columns) is not (C07's gate fails)
    and the transform rescales the frequencies.
@@ -296,7 +296,7 @@ def check_pair(p):
         if units:
             fk = f"C09/frequency-unit-dependence:{km.solver_class(test)}"
         elif placeholder:
-            fk = f"C09/real-inv-placeholder-constants:{rep}"
+            fk = f"C09/{test}-placeholder-constants:{rep}"
         out["finding_cell"] = fk
         rt = CNLS_RES_TOL if test == "cnls" else RES_TOL
         if not (obs["dres"] <= rt):
